@@ -8,7 +8,7 @@ package tracer
 // the sentinel that fails on first use; any other name gives the broken decompressor.
 
 //@ func GetDecompressor
-//@   modifies brotliSrc, zstdSrc, snappySrc
+//@   modifies ghosts:*Src
 //@   ensures @known forall f int :: 1 <= f && f <= 6 && compName(f) == strLower(encoding) ==> result != nil && (decFormat(result) == f || decFormat(result) == 0)
 //@   ensures @empty strLower(encoding) == "" ==> result != nil && decFormat(result) == 1
 //@   ensures @unknown strLower(encoding) != "" && strLower(encoding) != compName(1) && strLower(encoding) != compName(2) && strLower(encoding) != compName(3) &&
